@@ -9,8 +9,11 @@ spec -> code : histories are replayed in FRESH interpreters (harness/c03_lib.py,
                PYTHONHASHSEED set per history): real object creations / next_id calls move the counters, real
                importlib imports in the given order, then every observed module is fingerprinted BY VALUE
                (public equations over stable labels; results of the calls its own test functions make).
-               quick   : every catalogue module alone in a fresh process (the reference history) + 4
-                         whole-catalogue orders with boundary-targeting counter offsets;
+               quick   : every catalogue module alone in a fresh process (the reference history), alone with all
+                         counters shifted past their next boundary, alone with a digit boundary at every position
+                         inside the FUN / QTY / SYS names its import hands out, three histories in which a worker
+                         THREAD creates objects and imports a module, + 4 whole-catalogue orders with
+                         boundary-targeting counter offsets;
                thorough: + the canonical histories TLC emits (boundary before / inside at first, middle, last
                          position / after the module's block, per prefix; dependencies imported long before;
                          another module in between), realised for every module, + 12 more catalogue orders.
@@ -114,6 +117,52 @@ def shifted_spec(m: str, tests: dict) -> dict:
     s = iso_spec(m, tests)
     s.update(hid=f"iso-shifted:{m}", steps=offsets_steps(SHIFT) + [["import", m]], offsets=SHIFT)
     return s
+
+
+THREAD_MODULES = ["symplyphysics.laws.kinematics.speed_via_angular_speed_and_radius",
+                  "symplyphysics.definitions.momentum_is_mass_times_speed",
+                  "symplyphysics.laws.dynamics.acceleration_is_force_over_mass"]
+
+
+def threaded_specs(modules: list, tests: dict) -> list:
+    """Part of the history happens in ANOTHER THREAD of the process (objects created and a module imported by a
+    worker thread), the rest in the main thread: the counters are process-wide, so this is one more history."""
+    ms = [m for m in THREAD_MODULES if m in modules]
+    if len(ms) < 2:
+        return []
+    out = []
+    for i, m in enumerate(ms):
+        other = ms[(i + 1) % len(ms)]
+        out.append({"hid": f"threaded:{m}",
+                    "steps": [["thread", [["create", "SYM", 5], ["create", "FUN", 2], ["create", "QTY", 2], ["import", other]]],
+                              ["create", "SYM", 3], ["import", m]],
+                    "observe": [m, other], "tests": {x: tests[x] for x in (m, other) if x in tests}})
+    return out
+
+
+def boundary_specs(m: str, ref: dict, tests: dict, prefixes) -> list:
+    """One history per position at which a digit-count boundary (9/10, 99/100, ...) can fall INSIDE the sequence
+    of names of one prefix that importing m alone hands out (its dependencies' names included): other code has
+    created just enough objects of that prefix before.  By NameOrder!BlockLemma these are all the orders the
+    names of the import can have among themselves."""
+    specs = []
+    if not ref.get("imports") or not ref["imports"][0]["ok"]:
+        return specs
+    seq = {}
+    for b, i, _o in ref["events"][ref["marks"][0]:]:
+        seq.setdefault(b, []).append(i)
+    for p in prefixes:
+        ids = seq.get(p, [])
+        for j in range(1, len(ids)):
+            bound = 10
+            while bound < ids[j]:
+                bound *= 10
+            if bound == ids[j]:
+                continue
+            s = iso_spec(m, tests)
+            s.update(hid=f"boundary:{p}@{j}/{len(ids)}:{m}", steps=offsets_steps({p: bound - ids[j]}) + [["import", m]])
+            specs.append(s)
+    return specs
 
 
 def offsets_steps(offs: dict) -> list:
@@ -417,7 +466,7 @@ def judge(run: Run, sc: Path, modules: list, results: dict, refs: dict) -> None:
                           f"id {a['id']} and from prefix {b['b']!r} id {b['id']}: two objects created by different code "
                           f"share their internal name in this history (NoAlias of Symbols.tla)",
                           {"history": r["spec"], "hashseed": r["hashseed_used"], "events": [a, b]})
-    rank = {"iso": 0, "iso-shifted": 1, "iso-hashseed7": 2, "canon": 3, "cat": 4}
+    rank = {"iso": 0, "iso-shifted": 1, "boundary": 2, "iso-hashseed7": 3, "threaded": 4, "canon": 5, "cat": 6}
     # report each defect with the simplest history that shows it
     illegal = sorted(((traces[x[0]]["hid"], x[1], x[2]) for x in illegal),
                      key=lambda x: (rank.get(x[0].split(":")[0], 9), x[0], x[1]))
@@ -497,9 +546,14 @@ def main() -> int:
         iso = [m for m in modules if not only or any(o in m for o in only)]
         cats = [] if only and "cat" not in only else catalogue_orders(modules, tier, run.seed)
         specs = [(cat_spec(h, o, offs, tests), hs) for h, o, offs, hs in cats] + [(iso_spec(m, tests), 0) for m in iso] + \
-            [(shifted_spec(m, tests), 5) for m in iso]
-        collect(run, sc, specs, "isolated + isolated with shifted counters + catalogue orders", 3000, results)
+            [(shifted_spec(m, tests), 5) for m in iso] + ([] if only and "threaded" not in only else [(x, 0) for x in threaded_specs(modules, tests)])
+        collect(run, sc, specs, "isolated + isolated with shifted counters + threaded + catalogue orders", 3000, results)
         refs = {m: results[f"iso:{m}"] for m in iso if f"iso:{m}" in results and not results[f"iso:{m}"].get("timeout")}
+        # every position of a digit boundary inside the names one import hands out (FUN / QTY / SYS blocks are
+        # small: all positions in quick; SYM as well in thorough)
+        prefixes = ("FUN", "QTY", "SYS") + (("SYM",) if tier == "thorough" else ())
+        specs = [(x, 0) for m in iso if m in refs for x in boundary_specs(m, refs[m], tests, prefixes)]
+        collect(run, sc, specs, "boundary inside the names of one import, every position", 900, results)
         # a second hash seed for the reference history (thorough)
         if tier == "thorough":
             specs = []
